@@ -1155,7 +1155,7 @@ fn signature(c: &Case, t: &Trace) -> String {
             feats.push(f)
         }
     };
-    let mut f12 = false;
+    let mut cutfull = false;
     for (sp, r, o) in &t.sends {
         match (r, o.mode) {
             (SRes::Ok, 0) => add("buf", &mut feats),
@@ -1177,12 +1177,13 @@ fn signature(c: &Case, t: &Trace) -> String {
                 add("portcut", &mut feats);
             }
         }
-        // an unfinished message that nevertheless carries a complete encoding (finding F15)
+        // an unfinished message that nevertheless carries a complete encoding (the former finding F15:
+        // such a value must not be delivered)
         if *r != SRes::Ok && sp.fail == sp.plen + 1 {
-            f12 = true;
+            cutfull = true;
         }
         if *r == SRes::Cancelled && o.mode == 2 && o.bytes == sp.l {
-            f12 = true;
+            cutfull = true;
         }
     }
     for r in t.recvs.iter().chain(t.drain.iter()) {
@@ -1203,8 +1204,8 @@ fn signature(c: &Case, t: &Trace) -> String {
         s.push(':');
         s.push_str(f);
     }
-    if f12 {
-        s = format!("F15:{s}");
+    if cutfull {
+        s.push_str(":cutfull");
     }
     s
 }
@@ -1298,7 +1299,8 @@ impl ItemGen {
         for _ in 0..20 {
             let mut plen = self.plen(r);
             let poison = plen > 0 && r.chance(1, 10);
-            let fail = if allow_fail && plen > 0 && r.chance(1, 4) { r.range(0, plen - 1) + 1 } else { 0 };
+            // (fail = plen + 1: Serialize fails after the last byte, the unfinished message carries a complete encoding)
+            let fail = if allow_fail && plen > 0 && r.chance(1, 4) { r.range(0, plen) + 1 } else { 0 };
             let nports = if allow_ports && r.chance(1, 6) { 1 } else { 0 };
             if nports > 0 {
                 plen = plen.min(60);
@@ -1331,7 +1333,7 @@ pub fn gen(r: &mut Rng, i: usize) -> Vec<Vec<u128>> {
         16 => 4,
         17 => 5,
         18 => if i % 40 == 18 { 6 } else { 3 },
-        _ => 100, // the F15 stream
+        _ => 100, // unfinished messages that carry a complete encoding
     };
     let mds = [8u64, 13, 16, 24, 32, 50, 64, 100, 200, 1000];
     let smd = *r.pick(&mds);
@@ -1457,7 +1459,7 @@ pub fn gen(r: &mut Rng, i: usize) -> Vec<Vec<u128>> {
             }
         }
         _ => {
-            // F15: an unfinished streamed message that carries a complete encoding, and a receiver whose
+            // an unfinished streamed message that carries a complete encoding, and a receiver whose
             // pending `recv` is dropped and polled again
             let smd = *r.pick(&[8u64, 16, 24, 32]);
             let plen = smd + r.range(0, 40);
